@@ -116,6 +116,9 @@ const (
 	opTickLong // answer with wait 7ms and advance only 4ms
 	opTickShort // answer with a wait below a millisecond (300us) and let it pass
 	nOps
+	// not drawn at random with the others (everything after it is dead until the end of the script):
+	// answer with the largest wait there is ("wait forever") and let 50ms pass; no hit may start
+	opTickHuge = nOps
 )
 
 func runScript(t *testing.T, sc script) (out outcome) {
@@ -163,6 +166,7 @@ func runScript(t *testing.T, sc script) (out outcome) {
 		released := map[int64]bool{}
 		closedSeen := false
 		recording := true
+		huge := false
 		snap := func(st *step) {
 			synctest.Wait()
 			fetch()
@@ -281,6 +285,11 @@ func runScript(t *testing.T, sc script) (out outcome) {
 				if answer(7e6, false) {
 					advance(4e6)
 				}
+			case opTickHuge:
+				if answer(math.MaxInt64, false) {
+					huge = true
+					advance(50e6)
+				}
 			case opPaceStop:
 				answer(0, true)
 			case opCompleteOld:
@@ -297,12 +306,19 @@ func runScript(t *testing.T, sc script) (out outcome) {
 		}
 		// finish: stop, let everything complete, drain
 		stop()
+		if huge { // the loop sleeps "forever": let forever pass (virtual time), only the final flags matter afterwards
+			recording = false
+			time.Sleep(math.MaxInt64)
+			synctest.Wait()
+		}
 		for i := 0; i < 48 && !closedSeen; i++ { // a stopped loop may still win the select against stopch a few times (2^-48)
 			if i == 10 {
 				recording = false // keep driving, stop recording: only the final flags matter from here on
 			}
 			answer(0, false)
-			advance(20e6) // let a sleeping loop wake up
+			if !huge { // (the end of virtual time has been reached otherwise; the runtime cannot sleep there)
+				advance(20e6) // let a sleeping loop wake up
+			}
 			for complete(false) {
 			}
 			for j := 0; j < 200 && !closedSeen; j++ {
@@ -444,6 +460,10 @@ func TestDrive(t *testing.T) {
 				op = opTickW
 			}
 			sc.ops = append(sc.ops, op)
+		}
+		if rng.Intn(8) == 0 { // one "wait forever" answer somewhere, preceded by a consultation that let time pass
+			at := rng.Intn(len(sc.ops))
+			sc.ops = append(sc.ops[:at:at], append([]int{opTickW, opTickHuge, opAdvance, opCompleteOld, opConsume}, sc.ops[at:]...)...)
 		}
 		scripts = append(scripts, sc)
 	}
